@@ -80,6 +80,18 @@ def open_source(kind: str, data: bytes, schedule=(), cleanup=None):
         cleanup.append(fh.close)
         cleanup.append(lambda: os.unlink(path))
         return fh
+    if kind in ("gzip_file", "bz2_file", "lzma_file"):
+        # a compressed file on disk opened through the stdlib wrapper: fileno()/fstat describe the compressed file,
+        # tell()/read() the decompressed data
+        import bz2
+        import lzma
+
+        mod = {"gzip_file": gzip, "bz2_file": bz2, "lzma_file": lzma}[kind]
+        path = temp_file(mod.compress(data))
+        fh = mod.open(path, "rb")
+        cleanup.append(fh.close)
+        cleanup.append(lambda: os.unlink(path))
+        return fh
     if kind == "gzip_bytesio":
         return gzip.open(io.BytesIO(gzip.compress(data)), "rb")
     if kind == "gzip_buffered_dribble":
